@@ -251,9 +251,10 @@ def run(ctx):
             w1 = FortranWriter()(cont)
             names = gen.declared_names(gen.routine_decl_block(w1, "sub"))
             obs = "Some " + core.coq_list(core.coq_str(x) for x in names)
-        except VisitorError as e:
+        except Exception as e:      # pylint: disable=broad-except
+            # the model never fails on these inputs: reported through the correspondence below
             w1, names, obs = None, None, "None"
-            ctx.hist("nested_write_error", str(e)[:50])
+            ctx.hist("nested_write_error", "%s:%s" % (type(e).__name__, str(e)[:50]))
         wr_cases.append("(%s, %s)" % (enc, obs))
         wr_info.append({"written": w1, "declared": names})
         res = rt.roundtrip(tree=cont, fold_case=True)
@@ -352,8 +353,29 @@ def run(ctx):
     ctx.log("round trips: failures=%d; model cases gen_decls=%d (bad %d) merge=%d (bad %d) reread=%d (bad %d)"
             % (v.fail, len(gd_cases), len(bad_gd), len(wr_cases), len(bad_wr), len(rr_cases), len(bad_rr)))
 
+    # ---- search for a concrete failing input when gen_decls and the model disagree: wrap the
+    #      differing tables in a routine and evaluate the property (round trip) on it
+    found = 0
+    for i in bad_gd[:ctx.pick(12, 60)]:
+        try:
+            from psyclone.psyir.nodes import Routine
+            table, _ = gen.build_table(gd_specs[i])
+            tree = Routine.create("w", table, [])
+            res = rt.roundtrip(tree=tree, fold_case=True)
+        except Exception as e:      # pylint: disable=broad-except
+            ctx.hist("search", "not-buildable:" + type(e).__name__)
+            continue
+        ctx.hist("search", res["status"])
+        if res["status"] in ("unstable", "items-changed", "reread-error", "write2-error"):
+            found += 1
+            if found <= 2:
+                ctx.violation({"property": "C03", "what": "round trip of a routine whose declarations gen_decls orders differently from the model",
+                               "table_spec": gd_specs[i], "status": res["status"], "error": res.get("error"),
+                               "first_difference": res.get("diff"), "pass1": res.get("w1"), "pass2": res.get("w2"),
+                               "replay": "props/C03/gen.py: build_table(spec); Routine.create('w', table, []); rt.roundtrip(tree=...)"})
+
     # ---- verdict on proof / correspondence
-    if not ok or bad_gd or bad_wr or bad_rr:
+    if (not ok or bad_gd or bad_wr or bad_rr) and not found:
         first = None
         if bad_gd:
             i = bad_gd[0]
